@@ -183,7 +183,7 @@ func runStress(c StressCase) kit.Result {
 var stressSpec = kit.Spec[StressCase]{
 	Prop: "C02", Name: "rebuild",
 	Rule:  "1-6 stable keys (Put returned, never deleted), 1-8 reader goroutines cycling through generated accessors, one goroutine calling Rebuild 1-300 times (thorough 1500), optional writer churning other keys, optional two-queue cache; any 'missing' answer for a stable key is a violation. non-trivial = >=2 readers and >=20 rebuilds",
-	Quick: 40, Thorough: 120,
+	Quick: 40, Thorough: 200,
 	Gen: genStress, Run: runStress, Journal: true,
 }
 
